@@ -234,8 +234,8 @@ def for_program(bounds: tuple, iter_arg: bool, body: tuple) -> dict | None:
     for op in body:
         n += 1
         k = op[0]
-        if k not in ("A", "M", "LOGV", "LOGI"):
-            chain = False
+        if k in ("ACC", "INV", "INVR") or (k == "NIF" and op[1] in ("r", "g")):
+            chain = False                     # these ops redefine `last`
         if k in ("A", "M"):
             _, x, c = op
             if x == "last" and last is None:
